@@ -312,7 +312,7 @@ func runC02(c *engine.Ctx) {
 					if o.Name() == "Write" {
 						src := engine.Provenance(engine.CallArgs(call)[1], engine.ProvOpts{})
 						for k := range src.Calls {
-							if k.Name() == "getNotFoundPageContent" {
+							if engine.SameFunc(k, c.P.FuncObj("pkg/util/vhost", "getNotFoundPageContent")) {
 								return "not-found-page"
 							}
 						}
@@ -349,7 +349,7 @@ func runC02(c *engine.Ctx) {
 				if fv, _ := engine.LoadedField(st.Addr); fv != nil && fv.Name() == "ResponseHeaderTimeout" && fv.Pkg() != nil && fv.Pkg().Path() == "net/http" {
 					src := engine.Provenance(st.Val, engine.ProvOpts{})
 					for f2 := range src.Fields {
-						if f2.Name() == "responseHeaderTimeout" || f2.Name() == "ResponseHeaderTimeoutS" {
+						if f2 == c.P.Field("pkg/util/vhost", "HTTPReverseProxy", "responseHeaderTimeout") || f2.Name() == "responseHeaderTimeout" || f2.Name() == "ResponseHeaderTimeoutS" {
 							okTO = true
 						}
 					}
